@@ -136,7 +136,13 @@ func OpenPaths(drive, db, scratch string, cfg Config, ks *KeySet, w *Wrap) (*Ins
 	cfg.Normalise()
 	inst := &Instance{Dir: scratch, Drive: drive, DB: db, Cfg: cfg, Keys: ks}
 	mt := mtio.MagneticTapeIO{}
-	inst.TM = tape.NewTapeManager(inst.Drive, mt, cfg.RecordSize, cfg.Overwrite && !cfg.ReadOnly)
+	// overwrite=true is only ever used to START a tape (as the CLI's initialize/--overwrite do); an
+	// instance constructed over an existing tape must never be told to overwrite it
+	overwrite := cfg.Overwrite && !cfg.ReadOnly
+	if st, err := os.Stat(inst.Drive); err == nil && st.Size() > 0 {
+		overwrite = false
+	}
+	inst.TM = tape.NewTapeManager(inst.Drive, mt, cfg.RecordSize, overwrite)
 	inst.MP = persisters.NewMetadataPersister(inst.DB)
 	if err := inst.MP.Open(); err != nil {
 		return nil, fmt.Errorf("open index: %w", err)
